@@ -54,7 +54,7 @@ TB = "_b._tcp.local."
 SELF_IP = "10.0.0.1"
 PEER = "10.0.0.2"
 IPS = ["10.9.9.9", PEER, SELF_IP, "10.9.9.9"]
-PORTS = [5353, 5353, 5353, 40000, 53, 1, 65535]
+PORTS = [5353, 5353, 5353, 40000, 53, 1, 65535, 0]
 SRC6 = [("fe80::2", 5353, 0, 3), ("fe80::2", 5353, 0, 0), ("fe80::9", 5353, 0, 3), ("fe80::a", 40000, 0, 2), ("fe80::b", 5353, 7, 0), ("2001:db8::1", 5353, 0, 0), ("fe80::c", 53, 0, 9)]
 GAPS = [0, 0, 0, 1, 5, 50, 120, 300, 450, 999, 1000, 1200, 5000, 11000]
 MAXLEN = 8966
@@ -244,6 +244,58 @@ def burst_packets(rng, names):
     return out
 
 
+def big_query(rng, names):
+    """a legacy-unicast (or QU) query with 150-400 questions for registered names: the reply does not fit one datagram
+    (`DNSOutgoing.packets()` overflow / rollback / TC path; review 2: never executed by the other kinds)"""
+    n = rng.choice([150, 250, 400])
+    qs = b"".join(q(labels_of(rng.choice([TA, TA, names[1], "ha.local."])), rng.choice([12, 12, 33, 16, 1, 255]), rng.choice([1, 1, 0x8001]))
+                  for _ in range(n))
+    return hdr(rng.randrange(65536), 0, n) + qs
+
+
+def flood_packets(rng):
+    """6-12 responses of 30-40 PTRs of a browsed type each, aliases of 40-63 bytes (ASCII and 3-byte UTF-8), TTLs from short to 2^32-1:
+    hundreds of cached pointers, so that the browsers' queries with known answers span many datagrams (multi-bucket branch, TC)"""
+    out = []
+    t = wname(labels_of(TB))
+    for d in range(rng.choice([6, 8, 12])):
+        recs = []
+        for k in range(rng.choice([30, 40])):
+            fill = rng.choice(["a", "\u65e5"]) * rng.choice([11, 13, 18])      # 11-18 characters of 1 or 3 bytes
+            lab = (("f%02d-%02d-" % (d, k)) + fill).encode()[:63].decode("utf-8", "ignore").encode()
+            recs.append(rr(t if not recs else b"\xc0\x0c", 12, 1, rng.choice([5, 120, 4500, 4500, 0xFFFFFFFF]),
+                           bytes([len(lab)]) + lab + b"\xc0\x0c"))
+        out.append((rng.choice([0, 5, 50]), hdr(0, 0x8400, 0, len(recs)) + b"".join(recs)))
+    return out
+
+
+def tc_train(rng, names):
+    """3-5 distinct truncated query packets from one source, then (sometimes) the closing packet without TC: more than two deferred
+    packets per address, assembled in one `handle_assembled_query`"""
+    out = []
+    n = rng.choice([3, 4, 5])
+    for k in range(n):
+        last = k == n - 1 and rng.random() < 0.6
+        nq = 1 if k == 0 else rng.choice([0, 0, 1])
+        body = b"".join(q(labels_of(rng.choice([TA, names[1]])), rng.choice([12, 33]), 1) for _ in range(nq))
+        known = rr(wname(labels_of(TA)), 12, 1, rng.choice([4500, 2000, 10]), wname([b"s%d" % (1 + k % 2)] + labels_of(TA)))
+        out.append((rng.choice([0, 10, 100, 300]), hdr(900 + k, 0 if last else 0x0200, nq, 1) + body + known))
+    return out
+
+
+def addr_swap(rng):
+    """the lookup's server gets SRV, then A(ip1), A(ip2), A(ip1) (and the same with AAAA): the address re-ordering branch of
+    `ServiceInfo._process_record_threadsafe` (remove + insert at the front)"""
+    inst = wname([b"x"] + labels_of(TB))
+    host = wname([b"hx", b"local"])
+    out = [(0, hdr(0, 0x8400, 0, 1) + rr(inst, 33, 0x8001, 120, struct.pack(">HHH", 0, 0, 8080) + host))]
+    v6 = rng.random() < 0.4
+    ips = [bytes([0xFE, 0x80] + [0] * 13 + [k]) for k in (7, 8)] if v6 else [socket.inet_aton("10.0.0.%d" % k) for k in (7, 8)]
+    for ip in (ips[0], ips[1], ips[0], ips[1]):
+        out.append((rng.choice([0, 1, 1200]), hdr(0, 0x8400, 0, 1) + rr(host, 28 if v6 else 1, 0x8001, 120, ip)))
+    return out
+
+
 REP_GAPS = [300, 900, 900, 999, 1000, 1001]
 REP_SRCS = [("10.9.9.9", 40000), (PEER, 40000), ("10.7.7.7", 40001), (PEER, 53), ("10.9.9.9", 40002)]
 
@@ -251,11 +303,16 @@ KINDS = ["cycle", "cycle", "cycle", "burst", "burst", "canrep", "canrep", "looku
          "resp", "hostile", "hostile", "lookup", "d8", "d8b", "oversize", "repeat"]
 
 
+# the "state size" family (review 2, finding 4/5): one case in forty mixes these in, so that replies, browser queries and truncated
+# trains exceed one datagram / two packets (they are an order of magnitude slower to simulate than the other kinds)
+KINDS_BIG = ["bigq", "bigq", "flood", "tctrain", "tctrain", "addrswap", "addrswap", "query", "resp", "lookup", "cycle", "burst", "d8b", "hostile", "livemut"]
+
+
 def gen_item(rng, live, names, last, k=None):
     from . import c02
 
     if k is None:
-        k = rng.choice([x for x in KINDS if x not in ("cycle", "burst")])
+        k = rng.choice([x for x in KINDS if x not in ("cycle", "burst", "bigq", "flood", "tctrain", "addrswap")])
     if k in ("live", "livemut") and not live:
         k = "c02mut"
     if k == "repeat" and last is None:
@@ -310,6 +367,10 @@ def gen_item(rng, live, names, last, k=None):
 
 def gen_case(seed, idx):
     rng = C.rng_for(seed, "c15case", idx)
+    big = idx % 40 == 7
+    if big:
+        return {"seed": seed, "idx": idx, "big": True, "n_services": 2, "browse_own": rng.random() < 0.5, "lookup": True, "start": rng.choice([0, 300]),
+                "maxdelay": rng.choice([0, 5]), "tail": rng.choice([2000, 20000, 400000]), "n_items": rng.choice([8, 15]), "canary_id": 4242 + idx}
     return {"seed": seed, "idx": idx, "n_services": rng.choice([1, 1, 2]), "browse_own": rng.random() < 0.4,
             "lookup": rng.random() < 0.8, "start": rng.choice([0, 0, 30, 300, 2000, 20000]), "maxdelay": rng.choice([0, 5, 20]),
             "tail": rng.choice([0, 2000, 20000, 400000, 4000000]), "n_items": rng.choice([5, 15, 30, 60]), "canary_id": 4242 + idx}
@@ -403,7 +464,17 @@ def simulate(case):
         obs["callbacks"].append([sim.now(), "h", {ServiceStateChange.Added: "add", ServiceStateChange.Removed: "rem",
                                                   ServiceStateChange.Updated: "upd"}[state_change], name])
 
+    def w_packets(orig):
+        def f(self):
+            r = orig(self)
+            if len(r) > 1:
+                obs["multi"] = obs.get("multi", 0) + 1
+            return r
+        return f
+
     async def main(sim):
+        import zeroconf._protocol.outgoing as outm
+        patch(outm.DNSOutgoing, "packets", w_packets)
         patch(rmm.RecordManager, "async_updates_from_response", w_resp)
         patch(qhm.QueryHandler, "handle_assembled_query", w_haq)
         patch(qhm.QueryHandler, "async_response", w_response)
@@ -486,6 +557,23 @@ def simulate(case):
                     return True
             return False
         browsers = [AsyncServiceBrowser(zc, [TB], listener=L()), AsyncServiceBrowser(zc, [TB, TA] if case["browse_own"] else [TB], handlers=[handler])]
+        # one case in five also has a threaded `ServiceBrowser` (its handlers run in a dedicated thread fed by a queue: `browser.py`
+        # `ServiceBrowser.async_update_records_complete` / `run`); its callbacks are only used for the threaded canary
+        tbrowser, tcb = None, []
+        if case.get("threaded", case["idx"] % 5 == 2):
+            from zeroconf import ServiceBrowser
+
+            class LT(ServiceListener):
+                def add_service(s, zc, t, n):
+                    tcb.append(("add", n))
+
+                def remove_service(s, zc, t, n):
+                    tcb.append(("rem", n))
+
+                def update_service(s, zc, t, n):
+                    tcb.append(("upd", n))
+
+            tbrowser = ServiceBrowser(zc, [TB], listener=LT())
         await sim.sleep_ms(case["start"])
         lookup = None
         lookup_res = {}
@@ -519,7 +607,7 @@ def simulate(case):
                 gap, data, src, kind = it["gap"], bytes.fromhex(it["data"]), tuple(it["src"]), it.get("kind", "fixed")
                 subs = [(gap, kind, data, src)]
             else:
-                kind0 = rng.choice(KINDS)
+                kind0 = rng.choice(KINDS_BIG if case.get("big") else KINDS)
                 if kind0 == "cycle":
                     kind, data = cycle_packet(rng)
                     subs = [(rng.choice(GAPS), kind, data, (PEER, 5353))]
@@ -534,6 +622,15 @@ def simulate(case):
                 elif kind0 == "burst":
                     bsrc = (rng.choice([PEER, "10.9.9.9"]), 5353)
                     subs = [(g, "burst", d, bsrc) for g, d in burst_packets(rng, names)]
+                elif kind0 == "bigq":
+                    subs = [(rng.choice(GAPS), "bigq", big_query(rng, names), (rng.choice([PEER, "10.9.9.9"]), rng.choice([40000, 40000, 5353, 0])))]
+                elif kind0 == "flood":
+                    subs = [(g, "flood", d, (PEER, 5353)) for g, d in flood_packets(rng)]
+                elif kind0 == "tctrain":
+                    tsrc = (rng.choice([PEER, "10.9.9.9"]), rng.choice([5353, 5353, 40000]))
+                    subs = [(g, "tctrain", d, tsrc) for g, d in tc_train(rng, names)]
+                elif kind0 == "addrswap":
+                    subs = [(g, "addrswap", d, (PEER, 5353)) for g, d in addr_swap(rng)]
                 else:
                     kind, data = gen_item(rng, live, names, last, kind0)
                     src = (rng.choice(IPS), rng.choice(PORTS))
@@ -555,7 +652,7 @@ def simulate(case):
                     obs["escapes"].append({"index": len(obs["items"]) - 1, "exc": r, "kind": kind, "len": len(data)})
                 if data == fam_q:
                     obs["fam"].append({"index": len(obs["items"]) - 1, "t": sim.now(), "src": list(src),
-                                       "replied": replied_to(n_log, src) if src[1] != 5353 and ":" not in src[0] else None})
+                                       "replied": replied_to(n_log, src) if src[1] not in (5353, 0) and ":" not in src[0] else None})
         streaming["on"] = False
         await sim.sleep_ms(case["tail"])
         obs["live"] = len(live)
@@ -593,6 +690,12 @@ def simulate(case):
         await sim.sleep_ms(1000)
         got = {(c[1], c[2]) for c in obs["callbacks"][c0:] if c[3] == cname + "." + TB}
         obs["canary_a"] = sorted(t for t, e in got if e == "add")
+        if tbrowser is not None:
+            # the handler thread runs in real time: give it up to 3 s (it needs microseconds)
+            t_end = time.time() + 3.0
+            while time.time() < t_end and ("add", cname + "." + TB) not in list(tcb):
+                time.sleep(0.002)
+            obs["canary_t"] = ("add", cname + "." + TB) in list(tcb)
         r = deliver(announce_packet(CYC, TB, "hcyc.local.", PEER, port=82), (PEER, 5353))
         obs["canary_c_raised"] = r
         await sim.sleep_ms(1000)
@@ -607,6 +710,9 @@ def simulate(case):
         obs["end"] = sim.now()
         for b in browsers:
             await b.async_cancel()
+        if tbrowser is not None:
+            tbrowser.cancel()
+            await asyncio.sleep(0)
         await zc._async_close()
 
     try:
@@ -662,6 +768,8 @@ def judge(obs):
                     "latest Added/Removed callback for it is Added are %s, expected both" % obs.get("canary_c")))
     if obs.get("canary_a") != ["h", "l"]:
         bad.append(("C15:canary-announcement-unseen", "a well-formed announcement sent after the stream produced Added in %s, expected both browsers" % obs.get("canary_a")))
+    if obs.get("canary_t") is False:
+        bad.append(("C15:canary-announcement-unseen-threaded", "a well-formed announcement sent after the stream did not reach the handler thread of the threaded ServiceBrowser"))
     if obs.get("lookup", {}).get("raised"):
         bad.append(("C15:lookup-raised:%s" % obs["lookup"]["raised"], "the lookup in progress ended with an exception"))
     return bad
@@ -857,6 +965,9 @@ def run_case(res, case, ctx, acc, seen, do_min=True):
         res.count("block:" + b["tag"].split(":")[0])
         res.nontriv((b["tag"].split(":")[0], b["raised"], b["port"] == 5353 if "port" in b else None, b.get("ucast")))
     res.count("canary-pairs")
+    res.count("multi-packet-messages", obs.get("multi", 0))
+    md = max([n for b in obs["blocks"] for _a, n in b.get("deferred", [])] or [0])
+    res.count("deferred-packets-per-address:%s" % (md if md < 3 else "3+"))
     res.count("live-captured", obs["live"])
     bad = judge(obs)
     done = set()
@@ -977,6 +1088,9 @@ def run(ctx):
         if len(acc) >= 40:
             flush_model(res, ctx, acc, seen)
     flush_model(res, ctx, acc, seen)
+    # the API / timer blocks of the closed composite (registration, browser and lookup start/stop, purge, user listeners): own stream
+    from . import c15api
+    c15api.run_stream(res, ctx, C.Budget(tier, 150, 3000).n * (2 if ctx["widened"] else 1))
     res.violations.sort(key=lambda v: (0 if "escape" in v["sig"] or "loop-exception" in v["sig"] else 1, v["sig"], len(v["case"].get("items", []))))
     for c in res.violations[:1]:
         res.sample({"sig": c["sig"], "items": len(c["case"].get("items", []))})
@@ -985,6 +1099,9 @@ def run(ctx):
 
 def replay(body):
     case = body.get("case", body)
+    if "steps" in case or "scenario" in case:
+        from . import c15api
+        return c15api.replay(body)
     if "hex" in case and "items" not in case:
         d = bytes.fromhex(case["hex"])
         e = encodable_impl(d)
